@@ -26,6 +26,7 @@ type C03 struct {
 	ev0    int
 	cpPre  map[uint64]map[string]math.Int
 	cpBook map[uint64]map[string]math.Int
+	cpAcc  map[uint64]bool
 }
 
 func NewC03() *C03           { return &C03{st: NewStats("C03")} }
@@ -38,7 +39,7 @@ func (m *C03) AroundModule(w *chain.World, ctx sdk.Context, module, phase string
 	a := w.App
 	if before {
 		m.pre, m.tre, m.price = map[uint64]map[string]math.Int{}, map[uint64]map[string]math.Int{}, map[string]math.LegacyDec{}
-		m.cpPre, m.cpBook = map[uint64]map[string]math.Int{}, map[uint64]map[string]math.Int{}
+		m.cpPre, m.cpBook, m.cpAcc = map[uint64]map[string]math.Int{}, map[uint64]map[string]math.Int{}, map[uint64]bool{}
 		m.ev0 = len(w.PhaseEvents)
 		for _, p := range a.AmmKeeper.GetAllPool(ctx) {
 			if !p.PoolParams.UseOracle {
@@ -46,6 +47,22 @@ func (m *C03) AroundModule(w *chain.World, ctx sdk.Context, module, phase string
 				m.cpBook[p.PoolId] = map[string]math.Int{}
 				for _, as := range p.PoolAssets {
 					m.cpBook[p.PoolId][as.Token.Denom] = as.Token.Amount
+					// a pool that owns an accounted pool (a leveraged pool switched to constant-product
+					// mode by governance) is priced on its accounted balances = recorded reserve + what the
+					// perpetual positions owe it - what they hold of it: the formula is judged on those,
+					// built here from the current reserve and the accounted pool's non-amm part (not from
+					// the stored total, which is what the code under test has to keep fresh)
+					if ap, found := a.AccountedPoolKeeper.GetAccountedPool(ctx, p.PoolId); found {
+						for _, na := range ap.NonAmmPoolTokens {
+							if na.Denom == as.Token.Denom {
+								if acc := as.Token.Amount.Add(na.Amount); acc.IsPositive() {
+									m.cpBook[p.PoolId][as.Token.Denom] = acc
+								}
+							}
+						}
+						m.cpAcc[p.PoolId] = true
+						m.st.Ev("cp_pool_judged_on_accounted_balances")
+					}
 				}
 				continue
 			}
@@ -59,7 +76,7 @@ func (m *C03) AroundModule(w *chain.World, ctx sdk.Context, module, phase string
 	}
 	for _, p := range a.AmmKeeper.GetAllPool(ctx) {
 		if cp, ok := m.cpPre[p.PoolId]; ok && !p.PoolParams.UseOracle {
-			m.cpProduct(w, ctx, module, p.PoolId, p.Address, cp, m.cpBook[p.PoolId], poolDenoms(p.PoolAssets), poolWeights(p.PoolAssets))
+			m.cpProduct(w, ctx, module, p.PoolId, p.Address, cp, m.cpBook[p.PoolId], poolDenoms(p.PoolAssets), poolWeights(p.PoolAssets), m.cpAcc[p.PoolId])
 			continue
 		}
 		pre, ok := m.pre[p.PoolId]
@@ -135,6 +152,21 @@ func (m *C03) AroundModule(w *chain.World, ctx sdk.Context, module, phase string
 	}
 }
 
+// feeConversionThrough: did the pool's revenue address swap collected fees through the pool itself
+// during this phase (a transfer revenue address -> pool)?
+func (m *C03) feeConversionThrough(w *chain.World, id uint64, poolAddr string) bool {
+	rev := ammtypes.NewPoolRevenueAddress(id).String()
+	if m.ev0 > len(w.PhaseEvents) {
+		return false
+	}
+	for _, be := range ParseBankEvents(w.PhaseEvents[m.ev0:]) {
+		if be.Kind == "transfer" && be.From == rev && be.Addr == poolAddr {
+			return true
+		}
+	}
+	return false
+}
+
 func poolDenoms(as []ammtypes.PoolAsset) []string {
 	out := []string{}
 	for _, a := range as {
@@ -164,7 +196,7 @@ func poolWeights(as []ammtypes.PoolAsset) []int64 {
 	return out
 }
 
-func (m *C03) cpProduct(w *chain.World, ctx sdk.Context, module string, id uint64, addr string, pre, book map[string]math.Int, denoms []string, ws []int64) {
+func (m *C03) cpProduct(w *chain.World, ctx sdk.Context, module string, id uint64, addr string, pre, book map[string]math.Int, denoms []string, ws []int64, accounted bool) {
 	cur := balMap(w, ctx, addr)
 	d := diffBal(pre, cur)
 	if len(d) == 0 {
@@ -207,7 +239,14 @@ func (m *C03) cpProduct(w *chain.World, ctx sdk.Context, module string, id uint6
 	}
 	one := big.NewInt(1)
 	if !ref.ValueNotDecreased(b0, b1, ws, one, one, allow) {
-		w.Report(chain.Violation{Property: "C03", Rule: "C03.cp_pool_product_not_decreased", Scope: sc("pool", fmt.Sprint(id), "phase", module), Relation: "weighted_product_decreased",
+		rule := "C03.cp_pool_product_not_decreased"
+		if accounted && m.feeConversionThrough(w, id, addr) {
+			// known finding (DESIGN 9): the conversion of a collected fee into the revenue token is a
+			// nested swap through the same pool, priced on the accounted balances recorded before the
+			// enclosing swap (they are refreshed by the AfterSwap hook, which runs after it)
+			rule = "C03.cp_product_fee_conversion_on_stale_accounted_balance"
+		}
+		w.Report(chain.Violation{Property: "C03", Rule: rule, Scope: sc("pool", fmt.Sprint(id), "phase", module), Relation: "weighted_product_decreased",
 			Detail: fmt.Sprintf("height %d %s.end: constant-product pool %d reserves %v -> %v (weights %v, moved at the pool address: %s): the weighted product decreased - the swaps of this phase paid out more than the formula allows", ctx.BlockHeight(), module, id, b0, b1, ws, fmtDelta(d))})
 	}
 }
